@@ -9,7 +9,7 @@ static inline void iora_connect_on_close(int fd) { if (GC.open_fds > 0 && fd == 
 /* connectDo, loop 1: `for (addrinfo *ai = res; ai; ai = ai->ai_next)`: at the loop head no candidate socket is open (the previous one failed and was closed). */
 /* assigns = everything the body and its stubs write (plain mode: used for the havoc, so it is a deliberate superset: the whole connect ghost GC) */
 #define IORA_LOOP_UdpEngine_connectDo_1 IORA_LC( \
-  __CPROVER_assigns(ai, sfd, GC, G.cl.close_calls, G.cl.close_fd, G_ai_node, iora_errno) \
+  __CPROVER_assigns(ai, sfd, GC, G.cl.close_calls, G.cl.close_fd, G.cl.gfd_closed, G_ai_node, iora_errno) \
   __CPROVER_loop_invariant(sfd == -1 && GC.open_fds == 0 && GC.list_live && GC.foreign_close == 0 && IORA_NO_LOCK_HELD(self)) \
   __CPROVER_loop_invariant(ai == NULL || ai == G_ai_nodep) \
   __CPROVER_loop_invariant(G_ai_node.ai_addr == G_ai_addrp && G_ai_node.ai_addrlen <= sizeof(sockaddr_storage) && GC.ai_left <= 0xffffffffu) \
